@@ -27,6 +27,7 @@
 package main
 
 import (
+	"bytes"
 	"fmt"
 	"strings"
 
@@ -595,6 +596,295 @@ func verbCase(p *place, items []int) *vlib.Outcome {
 	return o
 }
 
+// ---- long: long runs through every output route -------------------------------------------------------
+//
+// One literal text run / verbatim body / comment body / printed context value of a length around the
+// sizes at which an implementation may switch strategy (tokenizer threshold 4096, buffer and chunk sizes
+// 32 KiB, 64 KiB, beyond). The run is a prefix of a NON-PERIODIC record stream (every record carries its
+// number), so a dropped, duplicated or re-ordered stretch of any size changes the output. Each template
+// is rendered through every string- and writer-returning entry point; all must give the model's bytes.
+
+var longLensQuick = []int{4096, 32767, 32768, 32769, 65535, 65536, 65537, 100000, 300000}
+
+// thorough adds the neighbours of 4096 / 8192 / 16384, of three and four 32 KiB chunks, and 1 MiB
+var longLensThorough = []int{4095, 4096, 4097, 8191, 8192, 8193, 16383, 16384, 16385, 32767, 32768, 32769,
+	65535, 65536, 65537, 98303, 98304, 98305, 100000, 131071, 131072, 131073, 300000, 1048576, 1048577}
+
+type longPat struct {
+	name string
+	rec  func(i int) string
+	memo string
+}
+
+// ascii: what a page looks like. bytes: every symbol of sigma — whitespace at both ends of a record, lone
+// braces, }} and %} outside any tag, % # - \ quotes, é, 0xFF, NUL, 0x80 — never {{ {% {# nor #}.
+// safe: nothing an output escaper could touch (for printed values: the engine auto-escapes HTML).
+var longPats = []*longPat{
+	{name: "ascii", rec: func(i int) string { return fmt.Sprintf("<p class=\"row\">literal text, row %07d of the run.</p>\n", i) }},
+	{name: "bytes", rec: func(i int) string {
+		return fmt.Sprintf(" \n\t{ %07d } %% # - \\ \" ' \xc3\xa9\xff\x00\x80 }} %%} a{\r", i)
+	}},
+	{name: "safe", rec: func(i int) string { return fmt.Sprintf("row %07d of a printed value (\xc3\xa9) [x=1; y=2]. ", i) }},
+}
+
+func longPatByName(name string) *longPat {
+	for _, p := range longPats {
+		if p.name == name {
+			return p
+		}
+	}
+	panic("no such pattern " + name)
+}
+
+const longMax = 1048577
+
+// text: the first n bytes of the record stream; a final { or \ (which would combine with a following
+// opener) is replaced by a dot.
+func (p *longPat) text(n int) string {
+	if p.memo == "" {
+		var sb strings.Builder
+		for i := 0; sb.Len() < longMax; i++ {
+			sb.WriteString(p.rec(i))
+		}
+		p.memo = sb.String()
+	}
+	tx := p.memo[:n]
+	if last := tx[n-1]; last == '{' || last == '\\' {
+		tx = tx[:n-1] + "."
+	}
+	return tx
+}
+
+// plainWriter is an io.Writer and nothing else (no WriteString, no ReadFrom, no WriteByte).
+type plainWriter struct{ b []byte }
+
+func (p *plainWriter) Write(q []byte) (int, error) { p.b = append(p.b, q...); return len(q), nil }
+
+type longRoute struct {
+	name string
+	run  func(e *twig.Engine, tp *twig.Template, ctx map[string]interface{}) (string, error)
+}
+
+var longRoutes = []longRoute{
+	{"Engine.Render", func(e *twig.Engine, tp *twig.Template, ctx map[string]interface{}) (string, error) {
+		return e.Render("t", ctx)
+	}},
+	{"Template.Render", func(e *twig.Engine, tp *twig.Template, ctx map[string]interface{}) (string, error) {
+		return tp.Render(ctx)
+	}},
+	{"Engine.RenderTo(bytes.Buffer)", func(e *twig.Engine, tp *twig.Template, ctx map[string]interface{}) (string, error) {
+		var w bytes.Buffer
+		err := e.RenderTo(&w, "t", ctx)
+		return w.String(), err
+	}},
+	{"Engine.RenderTo(strings.Builder)", func(e *twig.Engine, tp *twig.Template, ctx map[string]interface{}) (string, error) {
+		var w strings.Builder
+		err := e.RenderTo(&w, "t", ctx)
+		return w.String(), err
+	}},
+	{"Engine.RenderTo(plain io.Writer)", func(e *twig.Engine, tp *twig.Template, ctx map[string]interface{}) (string, error) {
+		var w plainWriter
+		err := e.RenderTo(&w, "t", ctx)
+		return string(w.b), err
+	}},
+	{"Template.RenderTo(bytes.Buffer)", func(e *twig.Engine, tp *twig.Template, ctx map[string]interface{}) (string, error) {
+		var w bytes.Buffer
+		err := tp.RenderTo(&w, ctx)
+		return w.String(), err
+	}},
+	{"Template.RenderTo(strings.Builder)", func(e *twig.Engine, tp *twig.Template, ctx map[string]interface{}) (string, error) {
+		var w strings.Builder
+		err := tp.RenderTo(&w, ctx)
+		return w.String(), err
+	}},
+	{"Template.RenderTo(plain io.Writer)", func(e *twig.Engine, tp *twig.Template, ctx map[string]interface{}) (string, error) {
+		var w plainWriter
+		err := tp.RenderTo(&w, ctx)
+		return string(w.b), err
+	}},
+}
+
+// longKind: what the long run is. piece(tx) = the source that carries it and what that source renders to.
+type longKind struct {
+	name  string
+	pats  []string
+	piece func(tx string) (src, out string) // nil: the run is literal text, placed by litTemplates
+}
+
+var longKinds = []longKind{
+	{name: "lit", pats: []string{"ascii", "bytes"}},
+	{name: "verb", pats: []string{"ascii", "bytes"}, piece: func(tx string) (string, string) {
+		return "{% verbatim %}" + tx + "{% endverbatim %}", tx
+	}},
+	{name: "com", pats: []string{"ascii", "bytes"}, piece: func(tx string) (string, string) { return "{#" + tx + "#}", "" }},
+	{name: "val", pats: []string{"safe"}, piece: func(tx string) (string, string) { return "{{ big }}", tx }},
+	{name: "valcat", pats: []string{"safe"}, piece: func(tx string) (string, string) { return "{{ 'l' ~ big }}", "l" + tx }},
+}
+
+// pieceTemplates: a piece of source with a known output alone / next to text / before / between / after /
+// inside a tag. Dashed tag kinds are not used here (whether a dash reaches into the output of a
+// neighbouring TAG is not this property's subject).
+func pieceTemplates(tg *tagc, src, out string) []tmpl {
+	if tg.dash {
+		return nil
+	}
+	if tg.src == "" {
+		return []tmpl{{"alone", src, out}, {"text", "x" + src + "y", "x" + out + "y"}}
+	}
+	r := []tmpl{
+		{"before", src + tg.src, out + tg.out},
+		{"between", tg.src + src + tg.src, tg.out + out + tg.out},
+		{"xbetweenx", "x" + tg.src + src + tg.src + "x", "x" + tg.out + out + tg.out + "x"},
+		{"after", tg.src + src, tg.out + out},
+	}
+	if tg.open != "" {
+		r = append(r, tmpl{"inside", tg.open + src + tg.close, out})
+	}
+	return r
+}
+
+func longBucket(n int) string {
+	switch {
+	case n <= 4096:
+		return "<=4096"
+	case n <= 32768:
+		return "<=32768"
+	case n <= 65536:
+		return "<=65536"
+	}
+	return ">65536"
+}
+
+// firstDiff describes where two long strings part, without printing them.
+func firstDiff(got, want string) string {
+	i := 0
+	for i < len(got) && i < len(want) && got[i] == want[i] {
+		i++
+	}
+	from := i - 24
+	if from < 0 {
+		from = 0
+	}
+	cut := func(s string) string {
+		if from >= len(s) {
+			return ""
+		}
+		s = s[from:]
+		if len(s) > 72 {
+			s = s[:72]
+		}
+		return s
+	}
+	return fmt.Sprintf("output has %d bytes, want %d; they part at offset %d; from offset %d: got %q want %q", len(got), len(want), i, from, cut(got), cut(want))
+}
+
+func longCase(t *vlib.T, k *longKind, pat *longPat, n int, tg *tagc) *vlib.Outcome {
+	o := &vlib.Outcome{Counters: map[string]int64{}}
+	tx := pat.text(n)
+	var ts []tmpl
+	if k.piece == nil {
+		ts = litTemplates(tg, tx)
+	} else {
+		src, out := k.piece(tx)
+		ts = pieceTemplates(tg, src, out)
+	}
+	o.Nontrivial = len(ts) > 0
+	o.Class = "long/" + k.name + "/" + pat.name + "/" + longBucket(n)
+	if len(ts) == 0 {
+		o.Class = "long/no-template"
+		return o
+	}
+	ctx := map[string]interface{}{"v": "V", "t": true, "xs": []interface{}{1}, "big": tx}
+	mark := fmt.Sprintf("‹%d bytes of pattern %s›", n, pat.name)
+	for _, tm := range ts {
+		t.Progress()
+		fail := func(route, msg string) *vlib.Outcome {
+			shown := strings.Replace(tm.src, tx, mark, -1)
+			o.Violation = fmt.Sprintf("long run (%s, %d bytes of pattern %q) %s tag %s, through %s: template %q (context value big = the same run)\n %s",
+				k.name, n, pat.name, tm.slot, tg.name, route, shown, msg)
+			o.Detail = map[string]interface{}{"kind": k.name, "pattern": pat.name, "first_records": pat.rec(0) + pat.rec(1), "length": n,
+				"slot": tm.slot, "tag": tg.name, "route": route, "template": shown, "what": msg}
+			return o
+		}
+		var e *twig.Engine
+		var tp *twig.Template
+		if msg := func() (msg string) {
+			defer func() {
+				if r := recover(); r != nil {
+					msg = fmt.Sprintf("PANIC %v", r)
+				}
+			}()
+			e = newEngine()
+			if err := e.RegisterString("t", tm.src); err != nil {
+				return "RegisterString: " + err.Error()
+			}
+			var err error
+			if tp, err = e.ParseTemplate(tm.src); err != nil {
+				return "ParseTemplate: " + err.Error()
+			}
+			return ""
+		}(); msg != "" {
+			return fail("parsing", msg)
+		}
+		for ri := range longRoutes {
+			rt := &longRoutes[ri]
+			probeCalls = 0
+			got, msg := func() (got, msg string) {
+				defer func() {
+					if r := recover(); r != nil {
+						msg = fmt.Sprintf("PANIC %v", r)
+					}
+				}()
+				g, err := rt.run(e, tp, ctx)
+				if err != nil {
+					return "", "ERR " + err.Error()
+				}
+				return g, ""
+			}()
+			o.Counters["renders"]++
+			o.Counters["long_renders"]++
+			if msg != "" {
+				return fail(rt.name, msg)
+			}
+			if got != tm.want {
+				return fail(rt.name, firstDiff(got, tm.want))
+			}
+			if probeCalls != 0 {
+				return fail(rt.name, "probe() was called")
+			}
+		}
+	}
+	return o
+}
+
+func longFamily(t *vlib.T) {
+	lens := longLensQuick
+	if t.Thorough() {
+		lens = longLensThorough
+	}
+	for _, n := range lens {
+		for ki := range longKinds {
+			k := &longKinds[ki]
+			for _, pn := range k.pats {
+				pat := longPatByName(pn)
+				for ti := range tags {
+					tg := &tags[ti]
+					if k.piece != nil && tg.dash {
+						continue
+					}
+					n := n
+					t.Case(fmt.Sprintf("long/%s/%s/%d/%s", k.name, pat.name, n, tg.name), func() *vlib.Outcome {
+						return longCase(t, k, pat, n, tg)
+					})
+					if t.Stopped() {
+						return
+					}
+				}
+			}
+		}
+	}
+}
+
 // ---- enumeration ----------------------------------------------------------------------------
 
 // words enumerates all sequences over n symbols of length exactly l, in lexicographic order.
@@ -708,6 +998,13 @@ func run(t *vlib.T) {
 		}
 		if t.Stopped() {
 			return
+		}
+		// the long runs come before the levels that only deepen two tag kinds, so that a deadline cuts those first
+		if l == litMax {
+			longFamily(t)
+			if t.Stopped() {
+				return
+			}
 		}
 	}
 }
